@@ -163,24 +163,32 @@ Crossbeam<'a, ItemType, BUFFER_SIZE, MAX_STREAMS> {
                 break
             }
             #[cfg(feature = "verif")] crate::verif::yield_point();
-            let sender = unsafe { self.senders.get_unchecked(*stream_id as usize) };
+            let mut listener_id = *stream_id;
+            let mut sender = unsafe { self.senders.get_unchecked(listener_id as usize) };
             match sender.len() {
                 len_before if len_before <= 2 => {
                     #[cfg(feature = "verif")] crate::verif::yield_point();
                     let _ = sender.try_send(arc_item.clone());
-                    self.streams_manager.wake_stream(*stream_id);
+                    self.streams_manager.wake_stream(listener_id);
                 },
                 #[cfg(feature = "verif")]
                 _ if { crate::verif::yield_point(); false } => unreachable!(),     // a scheduling point between `len()` and `try_send()` -- always falls through
                 _ => while sender.try_send(arc_item.clone()).is_err() {
                     #[cfg(feature = "verif")] crate::verif::probe("multi.arc.crossbeam.listener_full");
-                    self.streams_manager.wake_stream(*stream_id);
+                    self.streams_manager.wake_stream(listener_id);
 // TODO 2023-08-02: the possibility of this code indicates all our arc based channels is not a good fit for our retrying semantics. A possible correction would be to use a lock + count all listener's free slots... but OgreArc based ones seem to be a better design
 warn!("Multi Channel's Arc Crossbeam (named '{channel_name}', {used_streams_count} streams): One of the streams (#{stream_id}) is full of elements. Multi producing performance has been degraded. Increase the Multi buffer size (currently {BUFFER_SIZE}) to overcome that.",
       channel_name = self.streams_manager.name(), used_streams_count = self.streams_manager.running_streams_count());
 #[cfg(feature = "verif")] crate::verif::thread_sleep(Duration::from_millis(500));
 #[cfg(not(feature = "verif"))]
 std::thread::sleep(Duration::from_millis(500));
+                    // the listener we are waiting for may have been dropped meanwhile: the list of listeners is compacted in place,
+                    // so this position now holds whoever came next -- or the end-of-list mark
+                    listener_id = unsafe { std::ptr::read_volatile(stream_id) };
+                    if listener_id == u32::MAX {
+                        break
+                    }
+                    sender = unsafe { self.senders.get_unchecked(listener_id as usize) };
                 },
             }
         }
